@@ -12,7 +12,27 @@ CHECKS = {
                   "non-ASCII characters are the representatives é, €, 😀 (2,3,4 bytes); ASCII characters are symbolic over 0x20..0x7E"],
   "outside": ["documents longer than the bound", "JSON-RPC decoding"],
  },
+ "C19": {
+  "harnesses": [
+   {"pkg": "server", "fn": "VerifC19Frame", "quick": {"args": [], "reach": ["C19.frame.key", "C19.frame.nonmap", "C19.frame.unrec"]},
+    "thorough": {"fn": "VerifC19FrameFull", "args": ["-timeout-ms", 60000, "-deadline", "40m"], "reach": ["C19.frame.key"]}},
+   {"pkg": "server", "fn": "VerifC19Decode", "quick": {"args": [], "reach": ["C19.decode.bool", "C19.decode.int", "C19.decode.letters"]}},
+   {"pkg": "server", "fn": "VerifC19Refresh", "quick": {"args": [], "reach": ["C19.refresh.end"]}},
+   {"pkg": "server", "fn": "VerifC19Init", "quick": {"args": [], "reach": ["C19.init.end"]}},
+  ],
+  "bounds": {"quick": {"prior_settings": "every field symbolic (booleans free, numbers in stated ranges), at most one numeric field non-positive",
+                       "payload": "one recognised key (all 25) in nested, dotted or both spellings, 0..2 'hledger' wrappers; value of every JSON kind (null, bool symbolic, 7 numbers, 13 strings, array, object); non-map payloads; unrecognised keys",
+                       "decoders": "symbolic strings up to 5 bytes"},
+             "thorough": {"prior_settings": "every field symbolic, any number of non-positive numeric fields", "payload": "as quick"}},
+  "assumptions": ["numbers in payloads are concrete representatives (the executor has no symbolic floating point); float->int conversion only for |v| <= 2^53",
+                  "protocol.Client is the harness's stub; os/exec availability probe stubbed to false"],
+  "outside": ["two different recognised keys in one payload", "symbolic floating point payload values", "sequences are covered by one step from an arbitrary prior settings value"],
+ },
  "SMOKE": {
   "harnesses": [{"pkg": "server", "fn": "VerifSmoke", "quick": {"args": [], "reach": ["smoke.end"]}}],
  },
+}
+
+NOT_APPLICABLE = {
+ "C14": "data races, deadlocks and memory corruption at memory-access granularity under the Go scheduler are outside SSA-level symbolic execution with atomic tasks (DESIGN.md section 7); the right tool is go test -race under schedule exploration, a different technique",
 }
